@@ -29,7 +29,10 @@ def judge (bins : BinTable) (ps : Pixels) (o : Json) : R Bool := do
   let s ← getNat o "s"
   let e ← getNat o "e"
   match kind with
-  | "ext" => return runOk bins c s e (← getInt o "lo") (← getNat o "hi")
+  | "ext" =>
+      -- a negative upper end (e.g. a wrapped machine integer) is not a bin id: verdict false
+      let hi ← getInt o "hi"
+      return decide (0 ≤ hi) && runOk bins c s e (← getInt o "lo") hi.toNat
   | "ids" => return selOk bins c s e (← getNats o "ids")
   | "off" => return offsetOk bins c s e (← getInt o "o")
   | "px" => return pxSelOk bins ps c s e (← getPixels o "rows")
